@@ -156,6 +156,8 @@ impl AgentStatusSharedState {
             let mut http_connection_count: u128 = 0;
 
             while let Some(action) = rx.recv().await {
+                #[cfg(azure_guestproxyagent_verif)]
+                crate::shared_state::verif_actor::on_message("agent_status", "any");
                 match action {
                     AgentStatusAction::SetStatusMessage {
                         message,
